@@ -26,7 +26,10 @@ def main():
         d = os.path.join(VERIF, "seeded", name)
         meta = json.load(open(os.path.join(d, "meta.json")))
         checks = meta.get("checks") or [meta["property"]]
-        if sh(f"git -C /repo apply {d}/patch.diff").returncode != 0:
+        # patch.diff is against the pinned commit; when a later "fix:" commit touched the same lines a copy rebased
+        # on the current /repo HEAD (same change) is kept next to it
+        patch = f"{d}/patch.rebased.diff" if os.path.exists(f"{d}/patch.rebased.diff") else f"{d}/patch.diff"
+        if sh(f"git -C /repo apply {patch}").returncode != 0:
             print(name, "PATCH DOES NOT APPLY")
             summary.append((name, "patch-does-not-apply"))
             continue
